@@ -69,4 +69,127 @@ theorem readData_file (s2 : InStream) (file H ps : Bytes) (frames : List Frame) 
     rw [this]
     exact ⟨_, rfl⟩
 
+/-! ### what the loader holds when every group is named -/
+
+theorem readBack_named (gs : List Group) : ∀ (i : Nat) (acc : List Group), (∀ g ∈ gs, g.name ≠ []) → acc.length = i →
+    readBack gs i acc = acc ++ gs.map Group.normG := by
+  induction gs with
+  | nil => intro i acc _ _; simp [readBack]
+  | cons g rest ih =>
+    intro i acc hn hl
+    simp only [readBack, if_neg (hn g (by simp))]
+    have : i - acc.length = 0 := by omega
+    rw [this]
+    simp only [List.replicate_zero, List.append_nil]
+    rw [ih (i + 1) (acc ++ [g.normG]) (fun x hx => hn x (by simp [hx])) (by simp; omega)]
+    simp
+
+theorem setDSg_ok (v : Int) (h1 : 0 ≤ v) (h2 : v < 256) (g : Group) (h : GroupRecsOK g) : GroupRecsOK (setDSg v g) := by
+  unfold setDSg
+  split
+  · refine ⟨⟨h.head.name_pos, h.head.name_len, h.head.name_nz, h.head.desc_len, h.head.desc_nz⟩, ?_, ?_⟩
+    · intro p hp
+      simp only [List.mem_map] at hp
+      obtain ⟨q, hq, rfl⟩ := hp
+      exact setDSp_ok v (by omega) (by omega) q (h.params q hq)
+    · have : ((g.params.map (setDSp v)).map fun p => toUpper p.name) = g.params.map fun p => toUpper p.name := by
+        rw [List.map_map]; apply List.map_congr_left; intro q _; simp [setDSp_name]
+      simp only [this]; exact h.distinct
+  · exact h
+
+theorem file_shape (Hb ps data gsb : Bytes) (nb npad : Nat)
+    (hps : ps = [low8N 1, 0x50, low8 ((nb : Nat) : Int), 84] ++ gsb ++ List.replicate npad 0) (hnp : 1 ≤ npad) :
+    Hb ++ ps ++ data = Hb ++ (low8N 1 :: 0x50 :: low8N nb :: 84 :: (gsb ++ 0 :: (List.replicate (npad - 1) 0 ++ data))) := by
+  subst hps
+  cases npad with
+  | zero => omega
+  | succ k => simp [List.replicate_succ, low8N]
+
+/-- the object `C3D.load` returns for the bytes `C3D.write` produced -/
+def C3D.reloaded (s : C3D) (psLen : Nat) (pl al : List Bytes) : C3D :=
+  { hdr := s.hdr.loaded (psLen / 512 + 2),
+    ph := { start := 1, checksum := 0x50, nbBlocks := psLen / 512, processor := 84 },
+    groups := (s.groups.map (setDSg (((psLen / 512 + 2 : Nat) : Int) % 256))).map Group.normG,
+    frames := s.frames.map (relabelFrame pl al) }
+
+/-- BUILD -> SAVE -> LOAD: for every object whose header, groups and parameters the format can hold, whose
+    header is already what `updateHeader` derives from its parameters, and whose frames have the shape the
+    header announces, loading the bytes that `write` produced succeeds and returns the same header
+    (position words aside), the same groups and parameters (names upper-cased, POINT:DATA_START holding
+    the block number) and the same frames bit for bit (names taken from the label parameters). -/
+theorem load_write (F : FloatOps) (s : C3D) (b ps : Bytes) (pl al : List Bytes)
+    (hps : writeParamSection s.ph s.groups 512 = .ok ps) (hb : s.write = .ok b)
+    (hhdr : HdrOK s.hdr) (hstart : s.ph.start = 1)
+    (hgn : ∀ g ∈ s.groups, g.name ≠ []) (hgok : ∀ g ∈ s.groups, GroupRecsOK g)
+    (hgd : (s.groups.map fun g => g.name).Pairwise (· ≠ ·)) (hglen : s.groups.length ≤ 127)
+    (hblocks : ps.length / 512 < 256) (hsmall : b.length + 2 < two31)
+    (hstable : updateHeaderH F (s.reloaded ps.length pl al).groups [] (s.reloaded ps.length pl al).hdr = .ok (s.reloaded ps.length pl al).hdr)
+    (hnf : s.hdr.nbFrames = s.frames.length) (hnfs : s.frames.length ≤ 65536)
+    (hpl : (if s.hdr.nbPoints > 0 then strsOf (s.reloaded ps.length pl al).groups POINT LABELS else .ok []) = .ok pl)
+    (hal : (if s.hdr.nbAnalogs > 0 then strsOf (s.reloaded ps.length pl al).groups ANALOG LABELS else .ok []) = .ok al)
+    (hscale : s.hdr.scale < 0) (hna : s.hdr.nbAnalogs < 65536)
+    (hshape : ∀ f ∈ s.frames, f.hasShape s.hdr.nbPoints s.hdr.nbAnalogByFrame s.hdr.nbAnalogs) :
+    C3D.load F b = .ok (s.reloaded ps.length pl al) := by
+  -- the file
+  obtain ⟨v, npad, hv1, hv2, hnp, hpsb, hmod, hpos, hveq⟩ := writeParamSection_bytes s.ph s.groups ps (fun g hg _ => hgok g hg) hgd hps
+  have hbe : b = s.hdr.write ((ps.length / 512 + 2 : Nat) : Int) ++ ps ++ writeData s.frames := by
+    unfold C3D.write at hb
+    rw [hps] at hb
+    simp only [Res.bind_ok] at hb
+    have := (Res.ok.inj hb).symm
+    rw [this]
+    have e : ((512 + ps.length : Nat) : Int) / 512 + 1 = ((ps.length / 512 + 2 : Nat) : Int) := by omega
+    rw [e]
+  have hHlen : (s.hdr.write ((ps.length / 512 + 2 : Nat) : Int)).length = 512 :=
+    C03.header_length s.hdr _ ⟨hhdr.times, hhdr.displen, hhdr.lablen⟩
+  subst hveq
+  unfold C3D.load
+  -- header
+  have hopen : OnFile (InStream.open_ b) b := ⟨rfl, rfl, rfl⟩
+  rw [Header_read_written s.hdr (ps.length / 512 + 2) (ps ++ writeData s.frames) b (InStream.open_ b) hhdr (by omega) hopen
+    (by rw [hbe]; simp)]
+  simp only
+  -- parameters
+  generalize hs1 : (({ InStream.open_ b with rest := b, pos := 0, eof := false } : InStream).adv (ps ++ writeData s.frames) 512) = s1
+  have hs1file : OnFile s1 b := by rw [← hs1]; exact ⟨rfl, rfl, rfl⟩
+  have hgs'ok : ∀ g ∈ s.groups.map (setDSg (((ps.length / 512 + 2 : Nat) : Int) % 256)), g.name ≠ [] → GroupRecsOK g := by
+    intro g hg _
+    simp only [List.mem_map] at hg
+    obtain ⟨g0, hg0, rfl⟩ := hg
+    exact setDSg_ok _ hv1 hv2 g0 (hgok g0 hg0)
+  obtain ⟨s2, hrp, hs2file⟩ := readParameters_written (s.hdr.loaded (ps.length / 512 + 2)) s1 b
+    (s.hdr.write ((ps.length / 512 + 2 : Nat) : Int)) (List.replicate (npad - 1) 0 ++ writeData s.frames) (ps.length / 512)
+    (s.groups.map (setDSg (((ps.length / 512 + 2 : Nat) : Int) % 256)))
+    hHlen rfl rfl hblocks (by simpa using hglen) hgs'ok hs1file
+    (by
+      rw [hstart] at hpsb
+      have := file_shape (s.hdr.write ((ps.length / 512 + 2 : Nat) : Int)) ps (writeData s.frames) _ (ps.length / 512) npad hpsb hnp
+      rw [← this]; exact hbe)
+    hsmall
+  rw [hrp]
+  simp only
+  have hrb : readBack (s.groups.map (setDSg (((ps.length / 512 + 2 : Nat) : Int) % 256))) 0 []
+      = (s.groups.map (setDSg (((ps.length / 512 + 2 : Nat) : Int) % 256))).map Group.normG := by
+    rw [readBack_named _ 0 [] (by
+      intro g hg
+      simp only [List.mem_map] at hg
+      obtain ⟨g0, hg0, rfl⟩ := hg
+      rw [setDSg_name]; exact hgn g0 hg0) rfl]
+    simp
+  rw [hrb]
+  -- the header agrees with the parameters already
+  unfold updateHeader
+  have hst := hstable
+  unfold C3D.reloaded at hst
+  simp only at hst
+  rw [hst]
+  simp only [Outcome.lift]
+  -- data
+  obtain ⟨s3, hrd⟩ := readData_file s2 b (s.hdr.write ((ps.length / 512 + 2 : Nat) : Int)) ps s.frames
+    (s.hdr.loaded (ps.length / 512 + 2)) { start := 1, checksum := 0x50, nbBlocks := ps.length / 512, processor := 84 }
+    ((s.groups.map (setDSg (((ps.length / 512 + 2 : Nat) : Int) % 256))).map Group.normG) pl al
+    hs2file hbe hHlen (by simp only; omega) (by simp only; omega) hsmall rfl rfl hnf hnfs hpl hal hscale hhdr.np hhdr.abf hna hshape
+  rw [hrd]
+  rfl
+
 end Ezc3d
